@@ -13,7 +13,7 @@ from checks import c01, hashcommon as hc
 
 gen = hc.gen
 DRIVERS = hc.DRIVERS
-PROFILE = {"mix": 2, "occ": 1, "reject": 6, "inflight": 3}
+PROFILE = {"mix": 2, "occ": 1, "reject": 6, "inflight": 3, "pad": 1}
 
 
 def run(tier, replay=None):
